@@ -38,7 +38,7 @@ typedef struct gcase {
     uint8_t ex_on;
     uint8_t ex_d[7];
     uint8_t ex_s[7];
-    uint8_t pad_;
+    uint8_t src_first; /* allocate src at the lower address (exercises the dest > src branches) */
     /* overlap placement (C07): src lies at dest + ov_off elements inside one arena object */
     int ov_on;
     long ov_off;
